@@ -169,8 +169,30 @@ def judge_second_request(res, case, c, spec, recvs, term_time, gt, fam, ctxf):
                            c.log[-7:], ctxf()))
 
 
+def judge_wire(res, case, clients, specs, fam, ctxf):
+    """Whatever the signal and whenever it lands: what a client received of a response that had begun is a prefix of that response -
+    never another message (an error page) spliced into it."""
+    piece = b"0123456789"
+    for c, spec in zip(clients, specs):
+        first_line = "".join(o[1] for o in spec["ops"] if o[0] == "send").split("\r\n")[0]
+        path = first_line.split(" ")[1] if first_line.count(" ") >= 2 else "/"
+        if not path.startswith("/slowbody/") or not c.responses:
+            continue
+        r = c.responses[0]
+        if r["status"] != 200:
+            continue
+        n = int(path.split("/")[2])
+        want = piece * n
+        if r["body"] != want[:len(r["body"])]:
+            res.violate("C04:%s:%s:garbage-in-started-response:%s" % (fam, case.get("kind", "stub"), case["sig"]),
+                        "client %s had received the head and %d body bytes of its 200 response when %s arrived; what followed on the "
+                        "connection is not the rest of that body but %r; %s"
+                        % (c.name, len(r["body"]), case["sig"], bytes(r["body"][-80:]), ctxf()))
+
+
 def judge_clients(res, case, clients, specs, recvs, term_time, gt, fam, ctxf):
     """The in-flight clause: every request whose first byte had been read when TERM was handled is answered in full if it fits."""
+    judge_wire(res, case, clients, specs, fam, ctxf)
     sigkind = case["sig"]
     for c, spec in zip(clients, specs):
         st = c.stream
